@@ -579,6 +579,19 @@ def dict_method(ex, ref, m, args, kwargs, st, fr):
         if h.ktype is not None:
             h.set_empty()
         return ex.val(NONE, st)
+    if m == 'pop':
+        if h.ktype is None:
+            return ex.val(args[1], st) if len(args) > 1 else ex.exc(KeyError, st)
+        has = dict_has(h, args[0])
+
+        def present(s):
+            h2 = s.heap[ref.ref]
+            val = dict_get(h2, args[0])
+            before = h2.keys
+            h2.keys = ex.seq_remove(h2.keys, term_of(args[0]), s)
+            s.assume(memof(h2.keys) == z3.Store(memof(before), term_of(args[0]), z3.BoolVal(False)))
+            return ex.val(val, s)
+        return ex.branch(has, st, present, lambda s: (ex.val(args[1], s) if len(args) > 1 else ex.exc(KeyError, s)))
     raise Unsupported('dict method %s' % m)
 
 
